@@ -2,6 +2,7 @@
 usage: python -m harness.c07child <cases.json> <out.json>"""
 import _pickle
 import copy
+import copyreg
 import io
 import json
 import os
@@ -73,12 +74,13 @@ def ser(obj, container):
 
 
 def build(case):
-    inner = {"sinkinst": None, "dotted": None, "cross": None, "oddname": None, "allowed": [torch.tensor([1.0, 2.0]), {"w": torch.zeros(2)}], "sink": R(verif_sink.hit, ("nested",)),
+    inner = {"sinkinst": None, "dotted": None, "cross": None, "oddname": None, "extcold": None, "extwarm": None, "allowed": [torch.tensor([1.0, 2.0]), {"w": torch.zeros(2)}], "sink": R(verif_sink.hit, ("nested",)),
              "dangerous": R(os.getpid, ()), "mlonly": [__import__("datetime").date, __import__("fractions").Fraction]}[case["inner"]]
     chain = case["chain"]
-    if case["inner"] in ("sinkinst", "dotted", "cross", "oddname"):       # raw bytes: only a bare (pickle.loads-style) innermost level can carry them
+    if case["inner"] in ("sinkinst", "dotted", "cross", "oddname", "extcold", "extwarm"):       # raw bytes: only a bare (pickle.loads-style) innermost level can carry them
         odd = ["{0}", "lo}ad", "{x.y}", "a b", "\u00dcn\u00ef", "%s%d", "{"][sum(len(w) for w, _c in chain) % 7].encode()
         raw = b"(S'nested'\niverif_sink\nhit\n." if case["inner"] == "sinkinst" else \
+            EXT_PAYLOAD if case["inner"] in ("extcold", "extwarm") else \
             (b"ccollections\n" + odd + b"\n." if len(chain) % 2 else b"\x80\x04\x8c\x0bcollections\x8c" + bytes([len(odd)]) + odd + b"\x93.") if case["inner"] == "oddname" else \
             b"cverif_sink\nloads\n(S'nested'\ntR." if case["inner"] == "cross" else \
             b"\x80\x04\x8c\x0bcollections\x8c\x14OrderedDict.fromkeys\x93]\x85R."      # OrderedDict.fromkeys([]) by qualified name
@@ -108,8 +110,14 @@ def stream(data, i):
     return st
 
 
+# an application-registered extension code for a global that is NOT allow-listed (copyreg's registry is what EXT1/2/4 name)
+copyreg.add_extension("verif_sink", "ext_hit", 65)      # (a name nothing else pickles: the stock pickler writes registered globals as EXT at protocol 2+)
+EXT_PAYLOAD = b"\x82\x41(S'nested'\ntR."
+
+
 def reset():
     pickle.load, pickle.loads, _pickle.load, _pickle.loads, pickle.Unpickler = ORIG
+    copyreg.clear_extension_cache()
     ml.ML_ALLOWLIST.clear()
     ml.ML_ALLOWLIST.update(copy.deepcopy(BASE0))
 
@@ -131,6 +139,8 @@ def main():
                         "resolved": [], "ran": [], "may_run": []})
             continue
         adds = ADDS[c["adds"]]
+        if c["inner"] == "extwarm":       # the process has unpickled that extension code before, outside any environment
+            ORIG[1](b"\x82\x41.")
         del verif_sink.calls[:]
         del RESOLVED[:]
         if adds:
